@@ -6,6 +6,7 @@ import QrlModel.Model.Hex
 import QrlModel.Model.XmssKey
 import QrlModel.Model.Dilithium
 import QrlModel.Model.BdsLabel
+import QrlModel.Spec.XmssRef
 /-! Line-protocol driver: one operation per input line, one canonical result line per operation.
 The Go harness executes the same lines on the real library; the two output streams are diffed. -/
 open Qrl
@@ -56,6 +57,7 @@ structure DState where
   xkeys : List (String × Xmss.Key) := []
   dkeys : List (String × Dil.KeyPair × Bytes) := []
   lbl : Option (Nat × Nat × Bds.St BdsLabel.Lbl) := none
+  refKeys : List (String × XmssRef.RefKey) := []
 
 def lookupK {α} (l : List (String × α)) (k : String) : Option α := (l.find? (·.1 == k)).map (·.2)
 def putK {α} (l : List (String × α)) (k : String) (v : α) : List (String × α) := (k, v) :: l.filter (·.1 != k)
@@ -140,6 +142,19 @@ def step (st : DState) (line : String) : DState × String :=
     match Xmss.wparams? w.toNat! with
     | some p => (st, s!"ok {p.len1} {p.len2} {p.len} {p.logW} {p.keySize}")
     | none => (st, "refuse:logW")
+  -- ---- reference XMSS (full Merkle tree) ----
+  | ["xs.pk", seed, h, hf] =>
+    let key := seed ++ " " ++ h ++ " " ++ hf
+    let k := match lookupK st.refKeys key with
+      | some k => k
+      | none => XmssRef.refKey hashOf shake256 (unhex seed) h.toNat! hf.toNat!
+    ({ st with refKeys := putK st.refKeys key k }, "ok " ++ hx k.pk)
+  | ["xs.sign", seed, h, hf, idx, m] =>
+    let key := seed ++ " " ++ h ++ " " ++ hf
+    let k := match lookupK st.refKeys key with
+      | some k => k
+      | none => XmssRef.refKey hashOf shake256 (unhex seed) h.toNat! hf.toNat!
+    ({ st with refKeys := putK st.refKeys key k }, showO hx (XmssRef.refSign hashOf k idx.toNat! (unhex m)))
   -- ---- BDS label mode ----
   | ["bds.init", h] =>
     let hh := h.toNat!
